@@ -74,7 +74,7 @@
 //!     Ok(())
 //! }
 
-use std::io::{Error, ErrorKind};
+use std::io::Error;
 use std::os::unix::io::{AsRawFd, IntoRawFd, RawFd};
 
 use libc::{self, c_int};
@@ -172,14 +172,27 @@ pub(crate) fn wake(pipe: RawFd, method: WakeMethod) {
 /// guarantees and may change if necessary.
 ///
 /// * If the file descriptor can be used with [`send`][libc::send], it'll be used together with
-///   [`MSG_DONTWAIT`][libc::MSG_DONTWAIT]. This is tested by sending `0` bytes of data (depending
-///   on the socket type, this might wake the read end with an empty message).
+///   [`MSG_DONTWAIT`][libc::MSG_DONTWAIT]. This is tested by asking for the socket type
+///   ([`getsockopt`][libc::getsockopt]), nothing is sent through the descriptor.
 /// * If it is not possible, the [`O_NONBLOCK`][libc::O_NONBLOCK] will be set on the file
 ///   descriptor and [`write`][libc::write] will be used instead.
 pub fn register_raw(signal: c_int, pipe: RawFd) -> Result<SigId, Error> {
-    let res = unsafe { libc::send(pipe, &[] as *const _, 0, MSG_NOWAIT) };
-    let fd = match (res, Error::last_os_error().kind()) {
-        (0, _) | (-1, ErrorKind::WouldBlock) => WakeFd {
+    // Find out if it is a socket. We ask for its type instead of trying to send an empty message
+    // through it, because on a datagram socket the empty message stays in the queue ‒ enough of
+    // them (one per registration) fill it up and the wakeup bytes then don't fit in.
+    let mut sock_type: c_int = 0;
+    let mut len = std::mem::size_of::<c_int>() as libc::socklen_t;
+    let res = unsafe {
+        libc::getsockopt(
+            pipe,
+            libc::SOL_SOCKET,
+            libc::SO_TYPE,
+            &mut sock_type as *mut c_int as *mut libc::c_void,
+            &mut len,
+        )
+    };
+    let fd = match res {
+        0 => WakeFd {
             fd: pipe,
             method: WakeMethod::Send,
         },
